@@ -10,14 +10,29 @@
        values of the index expressions (a component port c.name is selected by
        an arbitrary code of the name: nothing depends on which),
      - an element-wise update replaces the sub-family at the index values.
-   The step relation over-approximates the executions: an assignment to a local
-   stores the denotation of its right-hand side; a phi copies, for every
-   valuation, one of its arguments, and the choice may depend on the valuation
-   exactly when the branch condition that decides along which edge the block is
-   entered does (signal-dependent control included: since /repo D18 the analysis
-   accounts for it). *)
+   WHAT KIND OF SEMANTICS THIS IS.  A LOCK-STEP SYMBOLIC relation over families: one
+   step fires ONE statement of the graph for ALL valuations at once; there is no
+   program counter (any statement may fire at any time, any number of times).  An
+   assignment to a local stores the denotation of its right-hand side; a phi copies,
+   for every valuation, one of its arguments, and the choice may depend on the
+   valuation exactly when a branch condition that can decide along which edge the
+   block is entered is denotable and varies with the valuation in the current store
+   (signal-dependent control included: since /repo D18 the analysis accounts for it).
+   There is no rule that makes a cell opaque.
+
+   WHAT RELATES IT TO EXECUTIONS (third audit).  Spec.DegRun is the concrete semantics
+   for one valuation.  PROVED (Proofs.DegRunProofs, Props.C07): every family of concrete
+   runs, one per valuation, that follow the same path of blocks is represented by a
+   store reachable here.  NOT PROVED: families whose paths differ (see the header of
+   props/C07.v, "NOT PROVED - OPEN"); for those the relation has the room (the phi
+   choice may vary under a varying decider), the graph part of the justification is
+   Props.C07.C07_lifted_split_is_named_by_decides, the rest is argued below.
+
+   WHAT IS ASSUMED OF THE TABLE.  [idom] is any table; [decides] walks it.  With the
+   true immediate-dominator table of a consistent graph (Model.DegGraph, evaluated per
+   graph) [decides] is [decides_dom], stated on paths alone (Proofs.DegGraphIdom). *)
 From Coq Require Import ZArith List Bool.
-Require Import Model.Base Model.Ir Model.Propagate Model.Justify Model.DegJustify Spec.PolyDeg.
+Require Import Model.Base Model.Ir Model.Propagate Model.Justify Model.DegJustify Spec.PolyDeg Spec.SsaDomSpec.
 Import ListNotations.
 Local Open Scope Z_scope.
 
@@ -131,9 +146,9 @@ Inductive above (idom : list (option N)) (stop : option N) : N -> N -> Prop :=
 
 (* the branch conditions that can decide along which edge block j is entered: those
    ending a block between the immediate dominator of j and one of its predecessors
-   (in the graphs lifting produces every branching block of that region dominates a
-   predecessor of j; an assumption of this semantics, exercised by the path audit of
-   the check) *)
+   (that EVERY block whose decision can change the incoming edge of j is among them is
+   proved for graphs with the edges of a lifted skeleton:
+   Props.C07.C07_lifted_split_is_named_by_decides) *)
 Definition decides (c : cfg) (idom : list (option N)) (j : block) (cond : expr) : Prop :=
   exists p q bq m t f,
     In p (b_preds j) /\
@@ -141,13 +156,45 @@ Definition decides (c : cfg) (idom : list (option N)) (j : block) (cond : expr) 
     nth_error (c_blocks c) (N.to_nat q) = Some bq /\
     last (b_stmts bq) (SLog m []) = SIf m cond t f.
 
+(* THE SAME WITHOUT ANY TABLE, over the path-based dominance of Spec.SsaDomSpec (cdom: lies
+   on every walk from the entry block; cidom: the closest strict dominator): the block q
+   that ends with the condition dominates a predecessor p of j and is dominated by the
+   immediate dominator of j.  Proofs.DegGraphIdom.decides_iff_decides_dom: on a graph with
+   Model.DegGraph.graph_consistent and a table with Model.DegGraph.idom_is_dominator_table
+   (both evaluated by the check on every graph) the two notions coincide, so a wrong
+   table cannot make [decides] - and with it the theorem - silently say less.  That every
+   block whose decision can change the edge along which j is entered is such a q is
+   proved for the skeleton graphs of lifting (Props.C07.C07_lifted_graphs_control_dependence);
+   for the graph after SSA conversion it rests on SSA conversion not changing blocks or
+   edges (observed by the correspondence of C14, not proved here). *)
+Definition decides_dom (c : cfg) (ij : nat) (j : block) (cond : expr) : Prop :=
+  exists p q bq m t f,
+    In p (b_preds j) /\
+    cdom c (N.to_nat q) (N.to_nat p) /\
+    (exists d, cidom c d ij /\ cdom c d (N.to_nat q)) /\
+    nth_error (c_blocks c) (N.to_nat q) = Some bq /\
+    last (b_stmts bq) (SLog m []) = SIf m cond t f.
+
 (* A phi copies, for every valuation, one of its arguments.  WHICH one is decided by the
    branch conditions [decides] names: the choice [pick] may depend on the valuation
-   only if one of them, as a function of the valuation in the current store, does (in
-   SSA form the current store holds the operands of a condition's last evaluation,
-   which is the one that decided; a condition not evaluated yet - the first entry of a
-   loop, an inner condition on a path that bypasses it - does not vary).  A block
-   with fewer than two predecessors has nothing to decide. *)
+   only if one of them IS DENOTABLE in the current store AND VARIES with the valuation
+   there.  A decider without denotation in the current store counts as "not varying".
+   This is an over-approximation only because of what "no denotation" means in the
+   stores this relation is used on (see [finit_total] and [fstep] below): there is NO
+   rule that makes a cell opaque, so a cell is None only as long as no statement that
+   assigns it has fired, and a condition is undenotable only as long as it reads a
+   local that has not been assigned yet (Proofs.DegSemTotal.den_none_reads_unassigned)
+   - i.e. it has not been evaluated by any of the runs the store represents (the first
+   entry of a loop, whose condition reads the header phi itself; an inner condition on
+   a path that bypasses it), and a condition nobody evaluated has decided nothing.
+   The variant "an undenotable decider leaves pick unconstrained" is NOT sound for
+   this order-free step relation (any statement may fire at any time): a join phi
+   could fire, with a valuation-dependent choice, BEFORE the local its (constant)
+   condition reads is assigned (Proofs.DegSemVariant.undenotable_unconstrained_refuted).
+   NOT PROVED (argued only): that the store at the time of the phi step holds the
+   operands of the deciding condition's LAST evaluation (SSA: an operand is reassigned
+   only by passing through its definition, which dominates the branching block).
+   A block with fewer than two predecessors has nothing to decide. *)
 Definition cond_fixed (s : fstore) (cond : expr) : Prop :=
   match den s cond with
   | Some C => forall r r', C [] r = C [] r'
@@ -162,6 +209,11 @@ Definition pick_ok (c : cfg) (idom : list (option N)) (s : fstore) (x : vname) (
 Definition phi_fam (s : fstore) (pick : V -> vname) : fam :=
   fun i rho => match s (pick rho) with Some G => G i rho | None => 0 end.
 
+(* The steps.  There is deliberately no rule that makes a cell opaque (None): the
+   third audit showed that such a rule (and partial initial stores) let an
+   undenotable deciding condition FORCE a constant phi choice, i.e. exclude
+   behaviour.  A statement whose right-hand side has no denotation (it reads a local
+   not assigned yet) simply cannot fire yet. *)
 Inductive fstep (c : cfg) (idom : list (option N)) : fstore -> fstore -> Prop :=
 | fs_assign m x op rhe sv st F s :
     In (SSubst m x op rhe sv st) (all_stmts (c_blocks c)) -> decl_of c x = Some TLocal -> is_param c x = false ->
@@ -170,12 +222,24 @@ Inductive fstep (c : cfg) (idom : list (option N)) : fstore -> fstore -> Prop :=
     In (SSubst m x op (EPhi args k) sv st) (all_stmts (c_blocks c)) -> decl_of c x = Some TLocal -> is_param c x = false ->
     (forall rho, In (pick rho) args) -> (forall rho, s (pick rho) <> None) ->
     pick_ok c idom s x pick ->
-    fstep c idom s (fupd s x (Some (phi_fam s pick)))
-| fs_opaque m x op rhe sv st s :
-    In (SSubst m x op rhe sv st) (all_stmts (c_blocks c)) -> decl_of c x = Some TLocal -> is_param c x = false ->
-    fstep c idom s (fupd s x None).
+    fstep c idom s (fupd s x (Some (phi_fam s pick))).
 
 Inductive freachable (c : cfg) (idom : list (option N)) (s0 : fstore) : fstore -> Prop :=
 | fr_init : freachable c idom s0 s0
 | fr_step s s' : freachable c idom s0 s -> fstep c idom s s' -> freachable c idom s0 s'.
+
+(* the names the step relation can assign: declared locals, not parameters, that some
+   statement of the graph assigns *)
+Definition assignable (c : cfg) (x : vname) : bool :=
+  match decl_of c x with Some TLocal => true | _ => false end && negb (is_param c x) &&
+  existsb (defines x) (all_stmts (c_blocks c)).
+
+(* TOTAL initial stores: every name the step relation cannot assign (signals, component
+   ports, parameters, never-assigned locals) has a denotation from the start.  The
+   stores that represent concrete runs (Proofs.DegRunProofs) are of this kind; the
+   soundness theorem holds for partial ones as well (it quantifies over all stores
+   with Proofs.DegGraphProofs.finit_ok), but only for total ones does "undenotable"
+   mean "reads a local not assigned yet". *)
+Definition finit_total (c : cfg) (s0 : fstore) : Prop :=
+  forall x, assignable c x = false -> s0 x <> None.
 End DegSem.
